@@ -16,6 +16,7 @@ use parquet::arrow::arrow_reader::{
     ArrowPredicate, ArrowPredicateFn, ArrowReaderMetadata, ArrowReaderOptions, MaskRunIter,
     ParquetRecordBatchReaderBuilder, RowFilter, RowSelection, RowSelectionPolicy, RowSelector,
 };
+use parquet::arrow::async_reader::{AsyncFileReader, ParquetRecordBatchStreamBuilder};
 use parquet::arrow::push_decoder::ParquetPushDecoderBuilder;
 use parquet::arrow::{ArrowWriter, ProjectionMask};
 use parquet::file::metadata::PageIndexPolicy;
@@ -287,6 +288,25 @@ impl Pred {
     }
 }
 
+/// in-memory `AsyncFileReader`
+struct MemReader {
+    bytes: Bytes,
+    md: Arc<parquet::file::metadata::ParquetMetaData>,
+}
+impl AsyncFileReader for MemReader {
+    fn get_bytes(&mut self, range: std::ops::Range<u64>) -> futures::future::BoxFuture<'_, parquet::errors::Result<Bytes>> {
+        let b = self.bytes.slice(range.start as usize..range.end as usize);
+        Box::pin(async move { Ok(b) })
+    }
+    fn get_metadata<'a>(
+        &'a mut self,
+        _options: Option<&'a ArrowReaderOptions>,
+    ) -> futures::future::BoxFuture<'a, parquet::errors::Result<Arc<parquet::file::metadata::ParquetMetaData>>> {
+        let md = self.md.clone();
+        Box::pin(async move { Ok(md) })
+    }
+}
+
 // ------------------------------------------------------------------ run one case
 
 fn policy_of(t: &str) -> Option<RowSelectionPolicy> {
@@ -388,6 +408,13 @@ fn run_read(t: &[&str]) -> ReadOut {
                 .map_err(|e| format!("open {e}"))?;
             let r = configure(b, t).build().map_err(|e| format!("build {e}"))?;
             r.collect::<Result<Vec<_>, _>>().map_err(|e| format!("read {e}"))
+        } else if mode == "async" {
+            use futures::TryStreamExt;
+            let md = ArrowReaderMetadata::load(&file.bytes, options).map_err(|e| format!("open {e}"))?;
+            let rd = MemReader { bytes: file.bytes.clone(), md: md.metadata().clone() };
+            let b = ParquetRecordBatchStreamBuilder::new_with_metadata(rd, md);
+            let stream = configure(b, t).build().map_err(|e| format!("build {e}"))?;
+            futures::executor::block_on(stream.try_collect::<Vec<_>>()).map_err(|e| format!("read {e}"))
         } else {
             let md = ArrowReaderMetadata::load(&file.bytes, options).map_err(|e| format!("open {e}"))?;
             let b = ParquetPushDecoderBuilder::new_with_metadata(md);
@@ -514,6 +541,61 @@ fn run_case(line: &str) -> (String, Option<String>) {
             let v: Vec<RowSelector> = MaskRunIter::new(&m).collect();
             show_sels(v.iter())
         }),
+        "prog" => {
+            let mut o: Option<String> = None;
+            let a = guarded(|| {
+                let mut cur = parse_operand(t[2]);
+                let mut out: Vec<String> = vec![];
+                // ground truth from the rows themselves (never from the cached count)
+                let truth = |c: &RowSelection| {
+                    let (d, pos) = expand(c);
+                    (pos.len(), d - pos.len(), !pos.is_empty())
+                };
+                let ops: Vec<&str> = if t[3] == "-" { vec![] } else { t[3].split(';').collect() };
+                for op in ops {
+                    let arg = &op[1..];
+                    match &op[0..1] {
+                        "r" => {
+                            let v = cur.row_count();
+                            if v != truth(&cur).0 { o = Some(format!("row_count() = {} but {} rows are selected (after `{}`)", v, truth(&cur).0, t[3])); }
+                            out.push(format!("r={}", v));
+                        }
+                        "k" => {
+                            let v = cur.skipped_row_count();
+                            if v != truth(&cur).1 { o = Some(format!("skipped_row_count() = {} but {} rows are skipped", v, truth(&cur).1)); }
+                            out.push(format!("k={}", v));
+                        }
+                        "y" => {
+                            let v = cur.selects_any();
+                            if v != truth(&cur).2 { o = Some(format!("selects_any() = {} but {} rows are selected", v, truth(&cur).0)); }
+                            out.push(format!("y={}", v as u8));
+                        }
+                        "t" => out.push(format!("t={}", cur.total_row_count())),
+                        "c" => cur = cur.clone(),
+                        "h" => {
+                            let head = cur.split_off(us(arg));
+                            cur = head;
+                        }
+                        "l" => {
+                            let _ = cur.split_off(us(arg));
+                        }
+                        "a" => cur = cur.and_then(&parse_operand(&arg[1..])),
+                        "i" => cur = cur.intersection(&parse_operand(&arg[1..])),
+                        "u" => cur = cur.union(&parse_operand(&arg[1..])),
+                        _ => return "bad-op".to_string(),
+                    }
+                }
+                let tr = truth(&cur);
+                let (r, k, y) = (cur.row_count(), cur.skipped_row_count(), cur.selects_any());
+                if (r, k, y) != tr {
+                    o = Some(format!("final row_count/skipped/selects_any = {}/{}/{} but the rows say {}/{}/{}", r, k, y, tr.0, tr.1, tr.2));
+                }
+                out.push(format!("r={} k={} y={} {}", r, k, y as u8, show_rs(&cur)));
+                out.join(" ")
+            });
+            oracle = o;
+            a
+        }
         "read" => {
             let mut o = None;
             let a = guarded(|| {
@@ -536,10 +618,12 @@ fn gen_runs(rng: &mut Rng, total: usize, marks: &[usize], zeros: bool) -> Vec<(u
     let mut out = vec![];
     let mut at = 0usize;
     let mut skip = rng.bool();
-    let style = rng.below(4);
+    let style = rng.below(5);
     while at < total {
         let left = total - at;
         let mut n = match style {
+            // sparse: long skips, one or two selected rows
+            4 => if skip { 4 + rng.usize(18) } else { 1 + rng.usize(2) },
             0 => 1 + rng.usize(3),
             1 => 1 + rng.usize(12),
             2 => {
@@ -592,7 +676,99 @@ fn small_total(rng: &mut Rng) -> usize {
     *rng.pick(&[0usize, 1, 2, 5, 8, 13, 20, 33, 64, 65, 100])
 }
 
+/// an operation history on one selection; observers are placed before and after the mutating ops
+fn gen_prog(rng: &mut Rng) -> (String, String) {
+    // domain like a few row groups; selections often sparse
+    let total = *rng.pick(&[0usize, 1, 7, 20, 33, 64, 72, 100, 130]);
+    let runs = match rng.below(6) {
+        0 => vec![(total, false)],
+        1 => vec![(total, true)],
+        _ => gen_runs(rng, total, &[], false),
+    };
+    let mask_backed = rng.chance(3, 4);
+    let start = if mask_backed { runs_to_m(&runs) } else { runs_to_r(&runs) };
+    let mut bits: Vec<bool> = runs.iter().flat_map(|(n, s)| std::iter::repeat(!*s).take(*n)).collect();
+    let mut ops: Vec<String> = vec![];
+    let mut tags = std::collections::BTreeSet::new();
+    let nops = 1 + rng.usize(6);
+    let mut warm = false;
+    for _ in 0..nops {
+        match rng.below(12) {
+            0 | 1 | 2 => {
+                ops.push("r".into());
+                warm = true;
+            }
+            3 => {
+                ops.push("k".into());
+                warm = true;
+            }
+            4 => ops.push("y".into()),
+            5 => ops.push("c".into()),
+            6 | 7 | 8 | 9 => {
+                // split, biased to run edges, to the popcount (≠ length) and to the ends
+                let pop = bits.iter().filter(|b| **b).count();
+                let n = match rng.below(5) {
+                    0 => pop,
+                    1 => *rng.pick(&[0, bits.len(), bits.len() + 1, pop + 1, pop.saturating_sub(1)]),
+                    _ => rng.usize(bits.len() + 2),
+                };
+                let keep_tail = rng.chance(2, 3);
+                tags.insert(format!("split:{}:{}", if warm { "warm" } else { "cold" }, if n >= pop && n < bits.len() { "ge-pop-lt-len" } else if n >= bits.len() { "ge-len" } else { "lt-pop" }));
+                if keep_tail {
+                    ops.push(format!("l{}", n));
+                    bits = bits[n.min(bits.len())..].to_vec();
+                } else {
+                    ops.push(format!("h{}", n));
+                    bits.truncate(n);
+                }
+                // the observer right after the split is what exposes a stale count
+                if rng.chance(3, 4) {
+                    ops.push((*rng.pick(&["r", "y", "k"])).to_string());
+                    if ops.last().unwrap() != "y" { warm = true; }
+                }
+            }
+            10 => {
+                let pop = bits.iter().filter(|b| **b).count();
+                let (o, ro) = gen_operand(rng, pop, &[]);
+                ops.push(format!("a:{}", o));
+                let ob: Vec<bool> = ro.iter().flat_map(|(n, s)| std::iter::repeat(!*s).take(*n)).collect();
+                let mut j = 0;
+                for b in bits.iter_mut() {
+                    if *b {
+                        *b = ob[j];
+                        j += 1;
+                    }
+                }
+                warm = false;
+                tags.insert("andthen".to_string());
+            }
+            _ => {
+                let (o, ro) = gen_operand(rng, bits.len(), &[]);
+                let ob: Vec<bool> = ro.iter().flat_map(|(n, s)| std::iter::repeat(!*s).take(*n)).collect();
+                let inter = rng.bool();
+                ops.push(format!("{}:{}", if inter { "i" } else { "u" }, o));
+                for (b, x) in bits.iter_mut().zip(ob.iter()) {
+                    *b = if inter { *b && *x } else { *b || *x };
+                }
+                warm = false;
+                tags.insert("setop".to_string());
+            }
+        }
+    }
+    let line = format!("C06 prog {} {}", start, if ops.is_empty() { "-".to_string() } else { ops.join(";") });
+    let t = format!(
+        "op:prog bk:{} {} {}",
+        if mask_backed { "M" } else { "R" },
+        tags.into_iter().collect::<Vec<_>>().join(" "),
+        if runs.len() > 1 && ops.len() > 1 { "nt" } else { "" }
+    );
+    (line, t)
+}
+
 fn gen_algebra(rng: &mut Rng) -> (String, String) {
+    if rng.chance(1, 5) {
+        return gen_prog(rng);
+    }
     let total = small_total(rng);
     let kind = |o: &str| if o.starts_with('M') { "M" } else { "R" };
     match rng.below(13) {
@@ -865,7 +1041,7 @@ fn gen_read(rng: &mut Rng) -> (String, String) {
             proj.push(c);
         }
     }
-    let mode = if rng.chance(2, 5) { "push" } else { "sync" };
+    let mode = *rng.pick(&["sync", "sync", "push", "push", "async"]);
     let line = format!(
         "C06 read {} {} {} {} {} {} {} {} {} {} {} {} {}",
         mode,
